@@ -409,7 +409,10 @@ def every_column_encoded(ck, prog):
         ck.violation(rule, inst, b.path, f"{b.loc[0]}:{b.loc[1]}", expected="a lookup inside the column loop", found="none")
         return
     s = sites[0]
-    headers = sorted({h for (u, h) in be if b.dominates(h, s)}, key=lambda h: len(b.dom[h]))
+    from sa.isolation import natural_loops as _nl
+    _loops = _nl(b)
+    # loops that CONTAIN the site (the header of a loop that merely precedes it dominates it as well)
+    headers = sorted({h for h, nodes in _loops.items() if s in nodes}, key=lambda h: len(b.dom[h]))
     if len(headers) < 2:
         ck.violation(rule, inst, b.path, b.where(s), expected="a per-row loop inside the per-column loop", found=f"{len(headers)} enclosing loops")
         return
